@@ -219,4 +219,91 @@ CurveTol(tc, dir) == IF tc = 16 /\ dir = "gam" THEN TolPQ ELSE TolCurve
 RtTol(tc)         == IF tc = 16 THEN TolPQ ELSE TolCurve
 \* strict "<" of the statements is checked as "<= tol + SpecEps": the harmless direction
 NearAny(y, refs, tol) == \E k \in 1..Len(refs) : Near(y, refs[k], tol)
+
+-------------------------------------------------------------------------------------
+(* JPEG XL opsin transform (C04, C05, C16): constants as printed in the property / libjxl. *)
+OpsinA == <<<<D(0, 3000, 0, 0, 0), D(0, 6220, 0, 0, 0), D(0, 0780, 0, 0, 0)>>,
+            <<D(0, 2300, 0, 0, 0), D(0, 6920, 0, 0, 0), D(0, 0780, 0, 0, 0)>>,
+            <<D(0, 2434, 2268, 9245, 4782), D(0, 2047, 6744, 4244, 9682), D(0, 5518, 0986, 6509, 5536)>>>>
+OpsinBias == D(0, 0037, 9307, 3255, 2754)            \* 0.0037930732552754493
+CbrtBias  == Cbrt(OpsinBias)
+OpsinMix(p) == <<Add(Dot3(OpsinA[1], p), OpsinBias), Add(Dot3(OpsinA[2], p), OpsinBias), Add(Dot3(OpsinA[3], p), OpsinBias)>>
+XybOfMix(m) ==
+  LET g(v) == Sub(Cbrt(Max(v, Z)), CbrtBias)
+      L == g(m[1])  M == g(m[2])  S == g(m[3])
+  IN <<DivInt(Sub(L, M), 2), DivInt(Add(L, M), 2), S>>
+XybRef(p) == XybOfMix(OpsinMix(p))
+
+\* C04 scope: the cube [0,4]^3, or pixels of [-1,4]^3 with a negative component whose three mixes are all
+\* <= -1e-3 (clamped) or >= 0.05 (away from the cube root's singular point)
+Four == FromInt(4)
+InCube04(p)  == \A k \in 1..3 : p[k][1] >= 0 /\ Cmp(p[k], Four) <= 0
+InCubeM14(p) == \A k \in 1..3 : Cmp(p[k], Neg(One)) >= 0 /\ Cmp(p[k], Four) <= 0
+MixWellConditioned(m) == \A k \in 1..3 : Cmp(m[k], Neg(D(0, 0010, 0, 0, 0))) <= 0 \/ Cmp(m[k], D(0, 0500, 0, 0, 0)) >= 0
+InScope04(p) == InCube04(p) \/ (InCubeM14(p) /\ (\E k \in 1..3 : p[k][1] < 0) /\ MixWellConditioned(OpsinMix(p)))
+InUnitCube(p) == \A k \in 1..3 : p[k][1] >= 0 /\ Cmp(p[k], One) <= 0
+
+-------------------------------------------------------------------------------------
+(* Colour primaries (C06, C16): H.273 Table 2 chromaticities and white points; CIE xy -> XYZ;
+   RGB->XYZ from primaries and white; Bradford chromatic adaptation.                             *)
+XY(x4, y4) == <<Ratio(x4, 10000), Ratio(y4, 10000)>>          \* chromaticities given to 4 decimals
+WhiteD65 == XY(3127, 3290)
+WhiteC   == XY(3100, 3160)
+WhiteDCI == XY(3140, 3510)
+WhiteE   == <<Ratio(1, 3), Ratio(1, 3)>>
+PrimXY(cp) ==
+  CASE cp = 1  -> <<XY(6400, 3300), XY(3000, 6000), XY(1500, 0600)>>
+    [] cp = 4  -> <<XY(6700, 3300), XY(2100, 7100), XY(1400, 0800)>>
+    [] cp = 5  -> <<XY(6400, 3300), XY(2900, 6000), XY(1500, 0600)>>
+    [] cp \in {6, 7} -> <<XY(6300, 3400), XY(3100, 5950), XY(1550, 0700)>>
+    [] cp = 8  -> <<XY(6810, 3190), XY(2430, 6920), XY(1450, 0490)>>
+    [] cp = 9  -> <<XY(7080, 2920), XY(1700, 7970), XY(1310, 0460)>>
+    [] cp \in {11, 12} -> <<XY(6800, 3200), XY(2650, 6900), XY(1500, 0600)>>
+    [] cp = 22 -> <<XY(6300, 3400), XY(2950, 6050), XY(1550, 0770)>>
+WhiteXY(cp) == CASE cp \in {4, 8} -> WhiteC [] cp = 10 -> WhiteE [] cp = 11 -> WhiteDCI [] OTHER -> WhiteD65
+\* xy -> XYZ with Y = 1
+XYZofXY(c) == LET ry == Recip(c[2]) IN <<Mul(c[1], ry), One, Mul(Sub(Sub(One, c[1]), c[2]), ry)>>
+\* RGB -> XYZ matrix of a primaries set (ST 428 is the CIE XYZ encoding itself: identity gamut, white E)
+RgbToXyz(cp) ==
+  IF cp = 10 THEN Ident3 ELSE
+  LET xy == PrimXY(cp)
+      P  == Transpose(<<XYZofXY(xy[1]), XYZofXY(xy[2]), XYZofXY(xy[3])>>)     \* columns = primaries
+      S  == MatVec(Inv3(P), XYZofXY(WhiteXY(cp)))
+  IN MatMul(P, Diag3(S))
+Bradford == <<<<D(0, 8951, 0, 0, 0), D(0, 2664, 0, 0, 0), Neg(D(0, 1614, 0, 0, 0))>>,
+              <<Neg(D(0, 7502, 0, 0, 0)), D(1, 7135, 0, 0, 0), D(0, 0367, 0, 0, 0)>>,
+              <<D(0, 0389, 0, 0, 0), Neg(D(0, 0685, 0, 0, 0)), D(1, 0296, 0, 0, 0)>>>>
+BradfordInv == Inv3(Bradford)
+Adapt(win, wout) ==
+  IF win = wout THEN Ident3 ELSE
+  LET a == MatVec(Bradford, XYZofXY(win))  b == MatVec(Bradford, XYZofXY(wout))
+  IN MatMul(BradfordInv, MatMul(Diag3(<<Mul(b[1], Recip(a[1])), Mul(b[2], Recip(a[2])), Mul(b[3], Recip(a[3]))>>), Bradford))
+\* linear RGB in primaries `from`  ->  linear RGB in primaries `to`
+PrimMatrix(from, to) ==
+  IF from = to THEN Ident3
+  ELSE MatMul(Inv3(RgbToXyz(to)), MatMul(Adapt(WhiteXY(from), WhiteXY(to)), RgbToXyz(from)))
+\* the 22 reference matrices against the BT.709 working space, computed once
+PrimTab == [cp \in Cp11 |-> [to709 |-> PrimMatrix(cp, 1), from709 |-> PrimMatrix(1, cp)]]
+PrimRef(cp, dir, p) == MatVec(IF dir = "to709" THEN PrimTab[cp].to709 ELSE PrimTab[cp].from709, p)
+\* 1e-5 * max(1, |v|)
+RelTol5(v) == IF Cmp(Abs(v), One) > 0 THEN Mul(Tol1em5, Abs(v)) ELSE Tol1em5
+
+-------------------------------------------------------------------------------------
+(* HSL, hexcone model (C17, C16): rational relations only. *)
+Max3(p) == Max(Max(p[1], p[2]), p[3])
+Min3(p) == Min(Min(p[1], p[2]), p[3])
+F360 == FromInt(360)
+\* |a - b| modulo 360 <= tol
+NearMod360(a, b, tol) ==
+  LET d == Abs(Sub(a, b)) IN Cmp(d, Add(tol, SpecEps)) <= 0 \/ Cmp(Abs(Sub(d, F360)), Add(tol, SpecEps)) <= 0
+\* hue in degrees by the sextant of the maximum channel, c = max - min > 0
+HueRef(p) ==
+  LET mx == Max3(p)  c == Sub(mx, Min3(p))  rc == Recip(c)
+      h == IF p[1] = mx THEN Mul(Sub(p[2], p[3]), rc)
+           ELSE IF p[2] = mx THEN Add(Two, Mul(Sub(p[3], p[1]), rc))
+           ELSE Add(FromInt(4), Mul(Sub(p[1], p[2]), rc))
+      d == MulInt(h, 60)
+  IN IF d[1] < 0 THEN Add(d, F360) ELSE d
+\* when two channels tie for the maximum both sextant formulas are legitimate readings of "hue by the
+\* sextant of the maximum channel" and agree modulo 360; HueRef picks the first, NearMod360 absorbs the rest
 =====================================================================================
